@@ -24,7 +24,7 @@ import json, os, re, sys
 
 REPO = os.environ.get("VERIF_REPO", "/repo")
 HERE = os.path.dirname(os.path.abspath(__file__))
-OUT = os.path.join(HERE, "..", "lean", "Ts", "Gen", "Exprs.lean")
+OUT = os.environ.get("VERIF_GEN_EXPRS_OUT") or os.path.join(HERE, "..", "lean", "Ts", "Gen", "Exprs.lean")
 DEFAULTS_PATH = os.path.join(HERE, "gen_defaults.json")
 
 class ParseError(Exception):
@@ -33,9 +33,10 @@ class ParseError(Exception):
 # ------------------------------------------------------------------------------------------------
 # tokenizer
 TOK = re.compile(r"""\s*(?:
-    (?P<num>0b[01_]+|0x[0-9a-fA-F_]+|[0-9][0-9_]*)(?P<suf>u8|u16|u32|u64|usize)?
+    (?P<str>"(?:\\.|[^"\\])*")
+  | (?P<num>0b[01_]+|0x[0-9a-fA-F_]+|[0-9][0-9_]*)(?P<suf>u8|u16|u32|u64|usize)?
   | (?P<id>[A-Za-z_][A-Za-z0-9_]*(?:(?:::|\.)[A-Za-z0-9_]+)*)
-  | (?P<op><<|>>|==|!=|<=|>=|&&|\|\||[-+*/%&|^()\[\]<>!,;{}])
+  | (?P<op>=>|<<|>>|==|!=|<=|>=|&&|\|\||[-+*/%&|^()\[\]<>!,;{}=])
 )""", re.X)
 
 def tokenize(s):
@@ -47,7 +48,9 @@ def tokenize(s):
                 break
             raise ParseError("cannot tokenize at %r" % s[pos:pos + 20])
         pos = m.end()
-        if m.group("num"):
+        if m.group("str"):
+            out.append(("str", "<string>", None))
+        elif m.group("num"):
             out.append(("num", m.group("num"), m.group("suf")))
         elif m.group("id"):
             out.append(("id", m.group("id"), None))
@@ -58,14 +61,19 @@ def tokenize(s):
 WIDTHS = {"u8": 8, "u16": 16, "u32": 32, "u64": 64, "usize": 64}
 
 class Node:
-    def __init__(self, kind, width, lean, linear, bytes_used):
+    def __init__(self, kind, width, lean, linear, bytes_used, binds=None):
         self.kind, self.width, self.lean, self.linear, self.bytes = kind, width, lean, linear, bytes_used
+        self.binds = binds or []      # [(var, Option-valued Lean expression)] evaluated before `lean`
 
 class Parser:
     """precedence-climbing parser over the token list; stops at the first token that cannot
     continue the expression (`,` `;` `)` `}` …)."""
-    def __init__(self, toks, arrays, scalars):
+    def __init__(self, toks, arrays, scalars, calls=None, consts=None):
         self.t, self.i, self.arrays, self.scalars = toks, 0, arrays, scalars
+        self.calls, self.consts, self.fresh = calls or {}, consts or {}, 0
+    def var(self):
+        self.fresh += 1
+        return "v%d" % self.fresh
     def peek(self):
         return self.t[self.i] if self.i < len(self.t) else ("eof", "", None)
     def take(self):
@@ -122,8 +130,69 @@ class Parser:
                 x = self.parse(0)
                 self.expect(")")
                 if x.kind == "bool":
-                    raise ParseError("from(bool)")
-                return Node("int", WIDTHS[m.group(1)], x.lean, x.linear, x.bytes)
+                    return Node("int", WIDTHS[m.group(1)], "(if %s then 1 else 0)" % x.lean, False, x.bytes, x.binds)
+                return Node("int", WIDTHS[m.group(1)], x.lean, x.linear, x.bytes, x.binds)
+            if name == "if":
+                c = self.parse(0)
+                if c.kind != "bool":
+                    raise ParseError("if on a non-bool")
+                self.expect("{"); a = self.parse(0); self.expect("}")
+                k = self.take()
+                if k[1] != "else":
+                    raise ParseError("if without else")
+                self.expect("{"); b = self.parse(0); self.expect("}")
+                if a.binds or b.binds:
+                    raise ParseError("partial call inside a branch")
+                if a.kind == "bool" or b.kind == "bool":
+                    raise ParseError("bool-valued if")
+                w = a.width if a.width is not None else b.width
+                return Node("int", w, "(if %s then %s else %s)" % (c.lean, a.lean, b.lean), False, c.bytes | a.bytes | b.bytes, c.binds)
+            if name == "match":
+                sc = self.parse(0)
+                self.expect("{")
+                arms, w, used, has_panic = [], None, set(sc.bytes), False
+                while self.peek()[1] != "}":
+                    pat = self.take()
+                    self.expect("=>")
+                    if self.peek() == ("id", "panic", None):
+                        self.take(); self.expect("!"); self.expect("(")
+                        depth = 1
+                        while depth:
+                            t = self.take()
+                            if t[0] == "eof":
+                                raise ParseError("unterminated panic!")
+                            depth += (t[1] == "(") - (t[1] == ")")
+                        body = None; has_panic = True
+                    else:
+                        body = self.parse(0)
+                        if body.binds or body.kind == "bool":
+                            raise ParseError("unsupported match arm")
+                        w = w if w is not None else body.width
+                        used |= body.bytes
+                    if self.peek()[1] == ",":
+                        self.take()
+                    if pat[0] == "num":
+                        arms.append((str(int(pat[1].replace("_", ""), 0)), body))
+                    elif pat[0] == "id":
+                        arms.append(("_", body))
+                    else:
+                        raise ParseError("unsupported pattern")
+                self.expect("}")
+                if has_panic:
+                    v = self.var()
+                    txt = "(match %s with %s)" % (sc.lean, " ".join("| %s => %s" % (p_, ("some %s" % b_.lean) if b_ is not None else "none") for p_, b_ in arms))
+                    return Node("int", w, v, False, used, sc.binds + [(v, txt)])
+                txt = "(match %s with %s)" % (sc.lean, " ".join("| %s => %s" % (p_, b_.lean) for p_, b_ in arms))
+                return Node("int", w, txt, False, used, sc.binds)
+            if name in self.consts:
+                return Node("lit", 64, str(self.consts[name]), True, set())
+            if name in self.calls and self.peek()[1] == "(":
+                self.take(); self.expect(")")
+                lname, kind, partial = self.calls[name]
+                if partial:
+                    v = self.var()
+                    return Node("int", 64, v, False, set(), [(v, "%s e" % lname)])
+                return Node("bool" if kind == "Bool" else "int", None if kind == "Bool" else (8 if kind == "Nat8" else 64), "%s e" % lname, False, set())
             if name in self.arrays:
                 self.expect("[")
                 idx = self.take()
@@ -144,6 +213,15 @@ class Parser:
         w = a.width if a.width is not None else b.width
         if a.width is not None and b.width is not None and a.width != b.width and op not in ("<<", ">>"):
             raise ParseError("width mismatch %s %s %s" % (a.width, op, b.width))
+        used = a.bytes | b.bytes
+        if a.binds or b.binds:
+            n = self.binop_pure(op, a, b)
+            n.binds = a.binds + b.binds
+            return n
+        return self.binop_pure(op, a, b)
+
+    def binop_pure(self, op, a, b):
+        w = a.width if a.width is not None else b.width
         used = a.bytes | b.bytes
         if a.kind == "lit" and b.kind == "lit" and op in ("&", "|", "^", "<<", ">>", "+", "*"):
             # constant folding (the literal takes its width from the context, as in Rust)
@@ -176,7 +254,7 @@ class Parser:
             return Node("int", wl, "(%s >>> %d)" % (a.lean, k), a.linear, used)
         if op in ("+", "-", "*"):
             if w is None:
-                raise ParseError("arithmetic on untyped literals")
+                w = 64            # untyped integer arithmetic in a `usize` function
             if op == "-":
                 raise ParseError("subtraction not supported")
             return Node("int", w, "((%s %s %s) %% 2 ^ %d)" % (a.lean, op, b.lean, w), False, used)
@@ -278,6 +356,78 @@ TARGETS = [
     ("maxbr_rate", "descriptor/max_bitrate.rs", fn_body("maximum_bitrate", "u32"), A_SELFBUF, {}),
 ]
 
+# ---- flag-dependent offset chains (control flow: if / match / calls to the flag accessors above)
+AF_CALLS = {"self.pcr_flag": ("af_pcr_flag", "Bool", False), "self.opcr_flag": ("af_opcr_flag", "Bool", False),
+            "self.splicing_point_flag": ("af_splice_flag", "Bool", False),
+            "self.transport_private_data_flag": ("af_private_flag", "Bool", False),
+            "self.opcr_offset": ("af_opcr_offset", "Nat", False),
+            "self.splice_countdown_offset": ("af_splice_offset", "Nat", False)}
+EXT_CALLS = {"self.ltw_flag": ("ext_ltw_flag", "Bool", False), "self.piecewise_rate_flag": ("ext_piecewise_flag", "Bool", False),
+             "self.piecewise_rate_offset": ("ext_piecewise_offset", "Nat", False)}
+PES_CALLS = {"self.pts_dts_flags": ("pes_pts_dts_flags", "Nat8", False), "self.escr_flag": ("pes_escr_flag", "Bool", False),
+             "self.esrate_flag": ("pes_esrate_flag", "Bool", False), "self.dsm_trick_mode_flag": ("pes_trick_flag", "Bool", False),
+             "self.additional_copy_info_flag": ("pes_copy_info_flag", "Bool", False), "self.pes_crc_flag": ("pes_crc_flag", "Bool", False),
+             "self.pts_dts_end": ("pes_pts_dts_end", "Nat", True), "self.escr_end": ("pes_escr_end", "Nat", True),
+             "self.es_rate_end": ("pes_es_rate_end", "Nat", True), "self.dsm_trick_mode_end": ("pes_trick_end", "Nat", True),
+             "self.additional_copy_info_end": ("pes_copy_info_end", "Nat", True)}
+def usize_fn(name):
+    return r"fn %s\(&self\) -> usize \{\s*" % name
+# (lean name, file, anchor, calls, impl block that holds the `Self::` constants)
+CHAIN_TARGETS = [
+    ("af_opcr_offset", "packet.rs", usize_fn("opcr_offset"), AF_CALLS, "impl<'buf> AdaptationField<'buf>"),
+    ("af_splice_offset", "packet.rs", usize_fn("splice_countdown_offset"), AF_CALLS, "impl<'buf> AdaptationField<'buf>"),
+    ("af_private_offset", "packet.rs", usize_fn("transport_private_data_offset"), AF_CALLS, "impl<'buf> AdaptationField<'buf>"),
+    ("ext_piecewise_offset", "packet.rs", usize_fn("piecewise_rate_offset"), EXT_CALLS, "impl<'buf> AdaptationFieldExtension<'buf>"),
+    ("ext_seamless_offset", "packet.rs", usize_fn("seamless_splice_offset"), EXT_CALLS, "impl<'buf> AdaptationFieldExtension<'buf>"),
+    ("pes_pts_dts_end", "pes.rs", usize_fn("pts_dts_end"), PES_CALLS, "impl<'buf> PesParsedContents<'buf>"),
+    ("pes_escr_end", "pes.rs", usize_fn("escr_end"), PES_CALLS, "impl<'buf> PesParsedContents<'buf>"),
+    ("pes_es_rate_end", "pes.rs", usize_fn("es_rate_end"), PES_CALLS, "impl<'buf> PesParsedContents<'buf>"),
+    ("pes_trick_end", "pes.rs", usize_fn("dsm_trick_mode_end"), PES_CALLS, "impl<'buf> PesParsedContents<'buf>"),
+    ("pes_copy_info_end", "pes.rs", usize_fn("additional_copy_info_end"), PES_CALLS, "impl<'buf> PesParsedContents<'buf>"),
+    ("pes_crc_end", "pes.rs", usize_fn("pes_crc_end"), PES_CALLS, "impl<'buf> PesParsedContents<'buf>"),
+]
+
+def self_consts(text, impl_header):
+    """`const NAME: usize = <literal or literal arithmetic>;` inside the given impl block -> {"Self::NAME": value}"""
+    i = text.find(impl_header)
+    if i < 0:
+        raise ParseError("impl block %r not found" % impl_header)
+    j = text.find("\nimpl", i + 1)
+    block = text[i: j if j > 0 else len(text)]
+    out = {}
+    for m in re.finditer(r"const\s+(\w+)\s*:\s*usize\s*=\s*([^;]+);", block):
+        try:
+            toks = tokenize(m.group(2))
+            n = Parser([(k, v.replace("usize", "") if k == "num" else v, None) for (k, v, _) in toks], [], {}, consts=dict(out)).parse(0)
+            if n.kind == "lit":
+                out["Self::" + m.group(1)] = int(n.lean)
+        except ParseError:
+            pass
+    return out
+
+def translate_chain(name, fname, anchor, calls, impl_header):
+    with open(os.path.join(REPO, "src", fname)) as f:
+        text = strip_comments(strip_tests(f.read()))
+    i = text.find(impl_header)
+    if i < 0:
+        raise ParseError("impl block not found")
+    j = text.find("\nimpl", i + 1)
+    block = text[i: j if j > 0 else len(text)]
+    m = re.search(anchor, block, re.S)
+    if not m:
+        raise ParseError("anchor not found")
+    toks = tokenize_prefix(block[m.end():m.end() + 1500])
+    p = Parser(toks, [], {}, calls=calls, consts=self_consts(text, impl_header))
+    node = p.parse(0)
+    if p.peek()[1] != "}":
+        raise ParseError("function body continues with %r" % (p.peek()[1],))
+    if node.kind == "bool":
+        raise ParseError("bool-valued chain function")
+    if node.binds:
+        body = "do " + "; ".join("let %s ← %s" % (v, x) for v, x in node.binds) + "; pure %s" % node.lean
+        return {"lean": body, "kind": "Option Nat", "bytes": [], "linear": False, "file": fname}
+    return {"lean": node.lean, "kind": "Nat", "bytes": [], "linear": False, "file": fname}
+
 def strip_tests(s):
     i = s.find("#[cfg(test)]")
     return s if i < 0 else s[:i]
@@ -308,7 +458,9 @@ def tokenize_prefix(s):
         if not m:
             break
         pos = m.end()
-        if m.group("num"):
+        if m.group("str"):
+            out.append(("str", "<string>", None))
+        elif m.group("num"):
             out.append(("num", m.group("num"), m.group("suf")))
         elif m.group("id"):
             out.append(("id", m.group("id"), None))
@@ -336,6 +488,17 @@ def main():
                 out.append((name, dex[name], str(ex)))
             else:
                 out.append((name, None, str(ex)))
+    for (name, fname, anchor, calls, impl_header) in CHAIN_TARGETS:
+        try:
+            rec = translate_chain(name, fname, anchor, calls, impl_header)
+            want_partial = calls.get("self." + {v[0]: k for k, v in calls.items()}.get(name, "").replace("self.", ""), (None, None, None))[2]
+            if want_partial is not None and want_partial != (rec["kind"] == "Option Nat"):
+                raise ParseError("partiality changed (panic arm added or removed)")
+            extracted[name] = rec
+            out.append((name, rec, None))
+        except (ParseError, OSError) as ex:
+            missing.append("%s (%s)" % (name, ex))
+            out.append((name, dex.get(name), str(ex)))
     with open(OUT, "w") as f:
         if missing:
             f.write("/-! GENERATED by tools/gen_exprs.py — FALLBACK to recorded translations for: %s -/\n" % "; ".join(missing))
